@@ -118,19 +118,23 @@ def step (p : Probes) (h : Host) (op : Op) : Host × String :=
   let l := asciiLower
   match op with
   | .dg now recs reacts =>
-    match ingest l (Cache.ops l) h.cache now recs with
+    -- the harness's listeners hash to their id, so the set iterates in ascending id order
+    match deliver l (fun ls => ls.mergeSort (fun a b => a ≤ b)) h.cache h.listeners now recs (reactFn 1 reacts) (reactFn 2 reacts) with
     | .error e => (h, s!"D err={e.name}")
-    | .ok out =>
+    | .ok d =>
+      let out := d.out
       match out.call1, out.call2 with
       | some (us, c1), some c2 =>
-        let ls1 := h.listeners
-        let nd := notifyDatagram ls1 (reactFn 1 reacts) (reactFn 2 reacts)
-        let ls2 := nd.2.1
-        let ls3 := nd.2.2
-        let bs := browsersUpdate h c1 now us
-        let (bs', cbs) := browsersComplete bs
-        ({ cache := out.cache, listeners := ls3, browsers := bs' },
-          s!"D u={pairsStr us} c1={idsStr ls1} s1={snapStr c1} c2={idsStr ls2} s2={snapStr c2} n={if out.notify then 1 else 0} cb={cbStr cbs} {readersStr p out.cache}")
+        match d.err with
+        | some e =>
+          -- a callback raised: the datagram is abandoned where it was (browsers are not part of these histories)
+          ({ h with cache := d.cache, listeners := d.listeners },
+            s!"D err={e.name} u={pairsStr us} c1={idsStr d.round1} s1={snapStr c1} c2={idsStr d.round2} s2={if d.round2.isEmpty then "!" else snapStr c2} {readersStr p d.cache}")
+        | none =>
+          let bs := browsersUpdate h c1 now us
+          let (bs', cbs) := browsersComplete bs
+          ({ cache := out.cache, listeners := d.listeners, browsers := bs' },
+            s!"D u={pairsStr us} c1={idsStr d.round1} s1={snapStr c1} c2={idsStr d.round2} s2={snapStr c2} n={if out.notify then 1 else 0} cb={cbStr cbs} {readersStr p out.cache}")
       | _, _ =>
         ({ h with cache := out.cache }, s!"D u=~ c1=~ s1=~ c2=~ s2=~ n={if out.notify then 1 else 0} cb=~ {readersStr p out.cache}")
   | .purge now =>
@@ -143,7 +147,10 @@ def step (p : Probes) (h : Host) (op : Op) : Host × String :=
       ({ h with cache := c', browsers := bs' },
         s!"X e={recsStr expired} c1={idsStr h.listeners} c2={idsStr h.listeners} cb={cbStr cbs} {readersStr p c'}")
   | .lAdd i => ({ h with listeners := setAdd h.listeners i }, s!"LA {idsStr (setAdd h.listeners i)}")
-  | .lRem i => ({ h with listeners := setRem h.listeners i }, s!"LR {idsStr (setRem h.listeners i)}")
+  | .lRem i =>
+    match applyAct Gen.Cache.remove_listener_catches_keyerror h.listeners (.remove i) with
+    | .ok ls => ({ h with listeners := ls }, s!"LR {idsStr ls}")
+    | .error e => (h, s!"LR err={e.name}")
   | .bAdd i now types =>
     let (b, cbs) := Browser.start l possibleTypes h.cache now types
     ({ h with browsers := h.browsers.filter (fun ib => ib.1 != i) ++ [(i, b)] }, s!"BA cb={cbStr (cbs.map (fun cb => (i, cb)))}")
